@@ -1,7 +1,7 @@
 (* C11 tie: side conditions of the theorems, checked on the slot tables REGENERATED from skfem/refdom.py *)
 From Coq Require Import List Arith Bool Lia.
 Import ListNotations.
-Require Import Base.C11_Unique Model.C11_Topo Proofs.C11_TopoProofs Gen.C11Refdom.
+Require Import Base.C11_Unique Model.C11_Topo Proofs.C11_TopoProofs Proofs.C11_EquivProofs Gen.C11Refdom.
 
 Inductive kind := Kline | Ktri | Kquad | Ktet | Khex | Kwedge.
 Definition k_nnodes k := match k with Kline => line_nnodes | Ktri => tri_nnodes | Kquad => quad_nnodes
@@ -62,3 +62,25 @@ Proof. vm_compute. reflexivity. Qed.
 Lemma wedge_triangular_slots_are_padded :
   nth 3 wedge_facets [] = [0; 1; 2] ++ [0] /\ nth 4 wedge_facets [] = [3; 4; 5] ++ [3].
 Proof. split; reflexivity. Qed.
+
+(* every facet / edge slot of every cell type is a tuple of distinct local vertices, possibly padded with one of them, with entries
+   below the number of cell vertices: the hypotheses of the renumbering theorems hold for all cells with distinct vertices *)
+Lemma slot_shapes_ok : forall k,
+  forallb slot_shape_ok (k_facets k) && forallb slot_shape_ok (k_edges k) &&
+  forallb (forallb (fun i => i <? k_nnodes k)) (k_facets k) && forallb (forallb (fun i => i <? k_nnodes k)) (k_edges k) = true.
+Proof. intros []; vm_compute; reflexivity. Qed.
+
+Lemma shape_every_cell_type k idx : idx = k_facets k \/ idx = k_edges k ->
+  Forall (fun ix => forall i, In i ix -> i < k_nnodes k) idx /\
+  forall ix c, In ix idx -> NoDup c -> length c = k_nnodes k -> shape (slotv ix c).
+Proof.
+  intros Hidx. pose proof (slot_shapes_ok k) as H. apply andb_true_iff in H. destruct H as [H H4].
+  apply andb_true_iff in H. destruct H as [H H3]. apply andb_true_iff in H. destruct H as [H1 H2].
+  rewrite forallb_forall in H1, H2, H3, H4.
+  assert (B : forall ix, In ix idx -> forall i, In i ix -> i < k_nnodes k).
+  { intros ix Hix i Hi. apply Nat.ltb_lt. destruct Hidx as [-> | ->];
+      [specialize (H3 ix Hix) | specialize (H4 ix Hix)]; [rewrite forallb_forall in H3; now apply H3 | rewrite forallb_forall in H4; now apply H4]. }
+  split; [rewrite Forall_forall; exact B|]. intros ix c Hix Nc Lc. apply slot_shape_sound; [|exact Nc|].
+  - destruct Hidx as [-> | ->]; [now apply H1 | now apply H2].
+  - intros i Hi. rewrite Lc. now apply (B ix).
+Qed.
